@@ -90,14 +90,9 @@ def parseOpts (d q e h : String) : Option Opts :=
 
 /-- reason tag for a table the model does not expect to survive export + import -/
 def whyTag (o : Opts) (t : Table) (texts : List (List Bytes)) : String :=
-  if t.any (fun r => r.any fun c => match c with | some (.blob _) => true | _ => false) then "blob-column"
-  else if o.header ∧ !t.isEmpty then "header"
-  else if t.any (fun r => r.any Option.isNone) then "null-cell"
+  if t.any (fun r => r.any Option.isNone) then "null-cell"
   else if t.any (fun r => r.any fun c => match c with | some (.str []) => true | _ => false) then "empty-string"
   else if texts.any (fun r => r.any List.isEmpty) then "empty-text"
-  else if (match o.escape with
-      | some e => e != o.quote && texts.any (fun r => r.any fun f => needsQuote o f && f.contains e)
-      | none => false) then "escape"
   else if o.delim == o.quote || isTerm o.delim || isTerm o.quote then "bad-options"
   else "cell-text"
 
@@ -148,7 +143,8 @@ def answer (line : String) : String :=
           "file:" ++ hexOrDash file ++ " import:" ++ showImport (importOpaque o (tysS.splitOn ",") tys orig file) ++
             " rt:false why:cell-display-panic"
         | some texts =>
-          let file := writeCsv o texts
+          let names : List Bytes := (List.range tys.length).map fun i => (s!"c{i}").toUTF8.toList
+          let file := writeFile o names texts
           let imp := importOpaque o (tysS.splitOn ",") tys texts file
           let rt := match imp with | .ok t' => sameBag t t' | _ => false
           "file:" ++ hexOrDash file ++ " import:" ++ showImport imp ++
